@@ -2022,6 +2022,8 @@ int64_t const_expr(Token **rest, Token *tok) {
   return eval(node);
 }
 
+static double eval_double2(Node *node);
+
 static double eval_double(Node *node) {
   add_type(node);
 
@@ -2031,6 +2033,15 @@ static double eval_double(Node *node) {
     return eval(node);
   }
 
+  // An expression of type float is evaluated in float, so round the
+  // result of every operation to float as the generated code does.
+  double val = eval_double2(node);
+  if (node->ty->kind == TY_FLOAT)
+    return (float)val;
+  return val;
+}
+
+static double eval_double2(Node *node) {
   switch (node->kind) {
   case ND_ADD:
     return eval_double(node->lhs) + eval_double(node->rhs);
@@ -2049,6 +2060,15 @@ static double eval_double(Node *node) {
   case ND_CAST:
     if (is_flonum(node->lhs->ty))
       return eval_double(node->lhs);
+    // Convert an integer directly to the destination type so that it
+    // is rounded only once, and honor its signedness.
+    if (node->ty->kind == TY_FLOAT) {
+      if (node->lhs->ty->is_unsigned)
+        return (float)(uint64_t)eval(node->lhs);
+      return (float)eval(node->lhs);
+    }
+    if (node->lhs->ty->is_unsigned)
+      return (uint64_t)eval(node->lhs);
     return eval(node->lhs);
   case ND_NUM:
     return node->fval;
